@@ -117,7 +117,7 @@ def term_bytes(o):
     return b"\n"
 
 
-TCH = {1: b"$", 2: b"{", 3: b"}", 4: b"1", 5: b"2", 6: b"x", 7: b"-", 8: b"0", 9: b"a", 10: b"_"}
+TCH = {1: b"$", 2: b"{", 3: b"}", 4: b"1", 5: b"2", 6: b"x", 7: b"-", 8: b"0", 9: b"a", 10: b"_", 11: b"4", 12: b"9", 13: b"6", 14: b"7"}
 
 
 def tpl_bytes(tpl):
